@@ -408,7 +408,10 @@ def gen_cases(ctx, consts):
         elif r < 0.90:   # handcrafted annotation regions: overshoot, straddle, duplicates, non-ascii, empty ids
             chunks = []
             for _ in range(rng.choice([1, 2, 3])):
-                key = rng.choice([b"AAAA", b"AAAA", b"BBBB", b"CC\x80C", b"\x00\x00\x00\x00", bytes(rng.randrange(128) for _ in range(4))])
+                key = rng.choice([b"AAAA", b"AAAA", b"BBBB", b"CC\x80C", b"\x00\x00\x00\x00", bytes(rng.randrange(128) for _ in range(4)),
+                                  # ids that are VALID utf-8 / latin-1 text but not ascii (a decoder using another codec accepts them)
+                                  "\u00e9ab".encode("utf-8"), "\u20acA".encode("utf-8"), "\U0001f600".encode("utf-8"),
+                                  "\u00e9\u00e9".encode("utf-8"), b"AB\xc3\xa9", b"\xe9abc", b"\xffABC"])
                 val = bytes(rng.randrange(256) for _ in range(rng.choice([0, 1, 5, 9])))
                 declared = len(val) + rng.choice([0, 0, 0, 0, 1, -1, 3, 8, 200])
                 chunks.append(key + max(0, declared).to_bytes(4, "big") + val)
